@@ -514,6 +514,10 @@ def inFrag (spec : Text) : Bool :=
       match comparator part with
       | some (c, []) =>
         compFull c ||
+        -- a partial version, with or without an operator: `1`, `0.0`, `~1`, `=1.2`, `>1`, `<=1.2`
+        -- (not at the very edge of u64: `>18446744073709551615` needs a successor the code cannot represent)
+        (c.patch.isNone && c.op != .wildcard && !(contains part ['*']) && !(contains part ['x']) && !(contains part ['X']) &&
+          c.major < u64Max && (match c.minor with | some m => m < u64Max | none => true)) ||
         (c.op == .wildcard && !(contains part ['x']) && !(contains part ['X']) &&
           (match splitChar '.' part with | [_, _] => true | [_, _, x] => x == ['*'] | _ => false))
       | _ => false
